@@ -707,6 +707,10 @@ class ParameterConfig:
       a subspace.
     """
     if not math.isfinite(self.num_feasible_values):
+      # Continuous parameters have no subspaces, but the value (e.g. a
+      # `default_value`, which is not checked against the bounds when the
+      # config is built) must still be feasible.
+      self._assert_feasible(value)
       return SearchSpace()
     value = trial.ParameterValue(value).cast_as_internal(self.type)
     self._assert_feasible(value)
